@@ -201,15 +201,16 @@ Qed.
 
 (* the same for any predicate on edits that the roll-up satisfies *)
 Lemma apply_edit_forall (P : txn -> Prop) m t roll :
-  Forall (Forall P) (mfragments m) -> P t -> (forall m', P (to_edit m')) ->
+  Forall (Forall P) (mfragments m) -> P t ->
+  P (mkT (tI t) (tO t) (tD t) (new_strs m t) [] (match tL t with Some l => Some l | None => mL m end)) ->
   Forall (Forall P) (mfragments (apply_edit m t roll)).
 Proof.
   intros Hc Ht Hroll. unfold mfragments in *. apply Forall_app in Hc. destruct Hc as [Hc1 Hc2].
   inversion Hc2 as [|? ? Hcur _]; subst.
   assert (Hcur' : Forall P (mcur m ++ [t])) by (apply Forall_app; split; [assumption|now constructor]).
-  unfold apply_edit. destruct roll; cbn [rollover mold mcur].
+  unfold apply_edit. fold (new_strs m t). destruct roll; cbn [rollover mold mcur].
   - apply Forall_app. split; [apply Forall_app; split; [assumption|now constructor]|].
-    constructor; [|constructor]. constructor; [apply Hroll|constructor].
+    constructor; [|constructor]. constructor; [exact Hroll|constructor].
   - apply Forall_app. split; [assumption|now constructor].
 Qed.
 
